@@ -20,8 +20,8 @@
        proved below (the C11_depth theorems): in every solver state the recursion depth of each
        traversal is at most the size of the BLOCK it starts in, whatever the number
        of labels, layers and blocks; a layer of k items gives at most k + 2 variables;
-     - the dict-key handling of omitted / empty / partial options (options=None,
-       the `latex` sub-dict, missing keys);
+     - (the dict-key handling of omitted / empty / partial options IS modelled since:
+       Render/Options.v, theorems C11_options_* below);
      - the emitters' string formatting (SVG / TikZ text, uni2tex: properties C07,
        C09, C19) -- tick texts are modelled since (C07_ticktext, Time/TickFormat.v) and tied by this check;
      - DESIGN.md's C11_refuted_cur (the four pre-repair witnesses of Appendix A.5)
@@ -202,7 +202,7 @@ From Labella Require Import Layout.ForceState Render.Options Render.OptionsProof
 Open Scope string_scope.
 
 (* options=None is options={} *)
-Theorem C11_options_none : tl_merge None = tl_merge (Some []).
+Theorem C11_options_none : forall fresh, tl_merge fresh None = tl_merge fresh (Some []).
 Proof. exact tl_merge_none. Qed.
 Print Assumptions C11_options_none.
 
@@ -210,12 +210,12 @@ Print Assumptions C11_options_none.
    the user's value where given and the default otherwise; the caller's scale object or a
    fresh TimeScale of the timeline's own; latex merged key by key; labella a COPY of the
    caller's engine options with the direction written in *)
-Theorem C11_options_merge : forall u, user_wf u -> exists d, tl_merge (Some u) = OOk d /\ merged_spec u d.
+Theorem C11_options_merge : forall fresh u, user_wf u -> exists d, tl_merge fresh (Some u) = OOk d /\ merged_spec fresh u d.
 Proof. exact tl_merge_spec. Qed.
 Print Assumptions C11_options_merge.
 
 (* hence no documented key is ever missing afterwards, whatever the user omitted *)
-Theorem C11_options_all_keys : forall u d, merged_spec u d ->
+Theorem C11_options_all_keys : forall fresh u d, merged_spec fresh u d ->
   (forall k, In k top_keys -> dget d k <> None) /\
   (exists lm, dget d K_latex = Some (VDict lm) /\ forall j, In j latex_keys -> dget lm j <> None) /\
   (exists l, dget d K_labella = Some (VDict l) /\ dget l E_direction = Some (user_direction u)).
@@ -224,57 +224,68 @@ Print Assumptions C11_options_all_keys.
 
 (* and every subscript performed on the merged options succeeds when the values that ARE
    given have the documented kinds (user_ok): no KeyError, no TypeError *)
-Theorem C11_options_total : forall u, user_ok u -> exists r, resolve (Some u) = OOk r.
+Theorem C11_options_total : forall fresh u, user_ok u -> exists r, resolve fresh (Some u) = OOk r.
 Proof. exact resolve_total. Qed.
 Print Assumptions C11_options_total.
 
-Theorem C11_options_omitted_total : exists r, resolve None = OOk r.
+Theorem C11_options_omitted_total : forall fresh, exists r, resolve fresh None = OOk r.
 Proof. exact resolve_none_total. Qed.
 Print Assumptions C11_options_omitted_total.
 
-Theorem C11_options_own_scale : forall u r, resolve (Some u) = OOk r ->
-  r_own_scale r = match dget u K_scale with None => true | Some _ => false end.
-Proof. exact resolve_own_scale. Qed.
-Print Assumptions C11_options_own_scale.
+(* WHICH scale object the timeline points to: the caller's object (by identity), else the
+   TimeScale this constructor call created (`fresh`); hence never the module-level default
+   object (identity 0) - the defect repaired by ada857e - unless the caller passes that object *)
+Theorem C11_options_scale_identity : forall fresh u r, user_wf u -> resolve fresh (Some u) = OOk r ->
+  r_scale_id r = match dget u K_scale with Some (VScale _ i) => i | _ => fresh end.
+Proof. exact resolve_scale_identity. Qed.
+Print Assumptions C11_options_scale_identity.
 
 (* non-vacuity: a partial dict (direction, a partial latex dict, an engine dict with one key, a
    LinearScale, an undocumented key) meets user_ok and resolves to the expected values; a
    partial margin dict raises KeyError, a non-dict latex value TypeError *)
 Definition ex_user : dict :=
   [ (K_direction, VStr (s2n "up")); (K_latex, VDict [(L_tickCross, VBool true)]);
-    (K_labella, VDict [(E_maxPos, VNum 340)]); (K_scale, VScale true); (123%N, VNum 5);
+    (K_labella, VDict [(E_maxPos, VNum 340)]); (K_scale, VScale true 7); (123%N, VNum 5);
     (K_dotColor, VStrs [s2n "#111"; s2n "#abc"]) ].
 
 Example C11_ex_options :
   user_ok ex_user /\
-  exists r, resolve (Some ex_user) = OOk r /\
+  exists r, resolve 9 (Some ex_user) = OOk r /\
     o_dir (r_opts r) = Up /\ o_cross (r_opts r) = true /\ o_ticks (r_opts r) = true /\
     Qeq_bool (o_iw (r_opts r)) 400 = true /\ Qeq_bool (o_ml (r_opts r)) 20 = true /\
     e_maxPos (r_engine r) = Some 340%Q /\ e_minPos (r_engine r) = Some 0%Q /\
-    r_linear r = true /\ r_own_scale r = false.
+    r_linear r = true /\ r_own_scale r = false /\ r_scale_id r = 7%N.
 Proof.
   split.
-  - constructor; try exact I;
-      try (unfold given; cbn; first [exact I | eexists; reflexivity]).
-    + repeat split; cbn; repeat constructor; cbn; intuition discriminate.
+  - assert (W : user_wf ex_user).
+    { repeat split; cbn; repeat constructor; cbn; intuition discriminate. }
+    constructor; try exact W.
+    all: try (unfold given; cbn; exact I).
+    all: try (unfold given; cbn; eexists; vm_compute; reflexivity).
+    all: try (unfold given; cbn; eexists; eexists; reflexivity).
+    intros k Hk. unfold given. cbn in Hk.
+    repeat (destruct Hk as [<-|Hk]; [cbn; exact I|]). contradiction.
   - eexists. split; [vm_compute; reflexivity|]. vm_compute. repeat split.
 Qed.
 
 Example C11_ex_options_raise :
-  resolve (Some [(K_margin, VDict [(K_left, VNum 10)])]) = ORaise OKeyError /\
-  resolve (Some [(K_latex, VNum 5)]) = ORaise OTypeError /\
-  resolve (Some [(K_direction, VStr (s2n "north"))]) = ORaise OTypeError.
-Proof. vm_compute. repeat split. Qed.
+  resolve 9 (Some [(K_margin, VDict [(K_left, VNum 10)])]) = ORaise OKeyError /\
+  resolve 9 (Some [(K_latex, VNum 5)]) = ORaise OTypeError /\
+  resolve 9 (Some [(K_direction, VStr (s2n "north"))]) = ORaise OTypeError /\
+  resolve 9 (Some [(K_dotColor, VStr (s2n "zzz"))]) = ORaise OTypeError /\
+  (exists r, resolve 9 (Some [(K_borderColor, VStr (s2n "zzz"))]) = OOk r) /\        (* not read: showBorder is off *)
+  resolve 9 (Some [(K_borderColor, VStr (s2n "zzz")); (K_showBorder, VBool true)]) = ORaise OTypeError.
+Proof. vm_compute. repeat split. eexists. reflexivity. Qed.
 
 (* ---------- the whole export from the caller's raw arguments ------------------------------
    export_docs (Render/PipelineOptions.v) = resolve (option dictionaries) ; timeline_docs
    (axis ; engine ; both emitters).  For options None / {} / any documented subset and data
    in the documented domain of the scale the options select, both documents are produced. *)
-From Labella Require Import Render.Pipeline Render.PipelineOptions.
-Theorem C11_export_total : forall user data dom today,
+From Labella Require Import Render.Pipeline Render.PipelineProofs Render.PipelineOptions.
+Theorem C11_export_total : forall fresh user data dom today,
   (match user with Some u => user_ok u | None => True end) ->
-  (forall r, raw_of_user user data dom today = OOk r -> doc_domain (ri_axis r)) ->
-  exists r s, raw_of_user user data dom today = OOk r /\
-              export_docs user data dom today = OOk (AOk (svg_doc_of s, tikz_doc_of s)).
+  (forall r, raw_of_user fresh user data dom today = OOk r -> pipeline_dom r) ->
+  exists r s, raw_of_user fresh user data dom today = OOk r /\
+              export_docs fresh user data dom today = OOk (AOk (svg_doc_of s, tikz_doc_of s)).
 Proof. exact export_total. Qed.
 Print Assumptions C11_export_total.
